@@ -1204,7 +1204,7 @@ func g10DeleteRemoves(r *Repo, rep *Report) {
 			}
 			for i, succ := range s.b.Succs {
 				ne := s.notExist
-				if cond != nil && i == 0 && isOS(cond, "IsNotExist") {
+				if cond != nil && i == 0 && (isOS(cond, "IsNotExist") || isErrNotExist(info, cond)) {
 					ne = true
 				}
 				dfs(state{succ, ne, s.errNN})
@@ -1226,6 +1226,21 @@ func g10DeleteRemoves(r *Repo, rep *Report) {
 	if !bad {
 		rep.pass("G10")
 	}
+}
+
+// isErrNotExist: errors.Is(err, fs.ErrNotExist) / errors.Is(err, os.ErrNotExist) — what os.IsNotExist tests, and more
+// (wrapped errors).
+func isErrNotExist(info *types.Info, e ast.Expr) bool {
+	c, ok := ast.Unparen(e).(*ast.CallExpr)
+	if !ok || !isPkgFunc(callee(info, c), "errors", "Is") || len(c.Args) != 2 {
+		return false
+	}
+	sel, ok := ast.Unparen(c.Args[1]).(*ast.SelectorExpr)
+	if !ok || sel.Sel.Name != "ErrNotExist" {
+		return false
+	}
+	v, ok := info.Uses[sel.Sel].(*types.Var)
+	return ok && v.Pkg() != nil && (v.Pkg().Path() == "io/fs" || v.Pkg().Path() == "os")
 }
 
 // g23UnresolvedReported — C09: a call goderive cannot generate a function for is reported with a non-zero exit. In
